@@ -118,30 +118,42 @@ package object
 // ---- C09: lock discipline for the shared type registries -----------------------------------------------------
 // Ghost lock state (assumed contracts of package sync): lock.w(m) / lock.r(m) say that the current goroutine
 // holds m for writing / reading. Lock is not re-entrant (taking it again would deadlock).
+// C03: sync's Unlock / RUnlock of a mutex that is not locked is a runtime throw ("fatal error: sync: unlock of unlocked
+// mutex") that no recover catches, and locking a mutex this goroutine already holds blocks for ever: both end the
+// embedding process' evaluation for good. The same ghost lock state that carries the C09 discipline therefore gives
+// C03 obligations at every Lock / Unlock call of the functions that use a mutex (inventory: scan C03.locks.*).
 //@ external sync.(*RWMutex).Lock
 //@ requires[C09.noreentry] !ghost("lock.w", bool, rw) && !ghost("lock.r", bool, rw)
+//@ requires[C03.lock.noreentry] !ghost("lock.w", bool, rw) && !ghost("lock.r", bool, rw)
 //@ modifies ghost("lock.w", bool, rw)
 //@ ensures ghost("lock.w", bool, rw)
 //@ external sync.(*RWMutex).Unlock
 //@ requires[C09.held] ghost("lock.w", bool, rw)
+//@ requires[C03.unlock.held] ghost("lock.w", bool, rw)
 //@ modifies ghost("lock.w", bool, rw)
 //@ ensures !ghost("lock.w", bool, rw)
 //@ external sync.(*RWMutex).RLock
 //@ requires[C09.noreentry] !ghost("lock.w", bool, rw)
+//@ requires[C03.lock.noreentry] !ghost("lock.w", bool, rw)
 //@ modifies ghost("lock.r", bool, rw)
 //@ ensures ghost("lock.r", bool, rw)
 //@ external sync.(*RWMutex).RUnlock
 //@ requires[C09.held] ghost("lock.r", bool, rw)
+//@ requires[C03.unlock.held] ghost("lock.r", bool, rw)
 //@ modifies ghost("lock.r", bool, rw)
 //@ ensures !ghost("lock.r", bool, rw)
 //@ external sync.(*Mutex).Lock
 //@ requires[C09.noreentry] !ghost("lock.w", bool, m)
+//@ requires[C03.lock.noreentry] !ghost("lock.w", bool, m)
 //@ modifies ghost("lock.w", bool, m)
 //@ ensures ghost("lock.w", bool, m)
 //@ external sync.(*Mutex).Unlock
 //@ requires[C09.held] ghost("lock.w", bool, m)
+//@ requires[C03.unlock.held] ghost("lock.w", bool, m)
 //@ modifies ghost("lock.w", bool, m)
 //@ ensures !ghost("lock.w", bool, m)
+
+//@ scan[C03.locks.object] C03 extcalls sync.(*Mutex).Lock,sync.(*Mutex).Unlock,sync.(*Mutex).TryLock,sync.(*RWMutex).Lock,sync.(*RWMutex).Unlock,sync.(*RWMutex).RLock,sync.(*RWMutex).RUnlock: (*GoType).GetConverter NewGoType NewTypeConverter SetTypeConverter
 
 //@ guarded typeConverters goTypeMutex
 //@ guarded goTypeRegistry goTypeMutex
@@ -151,19 +163,19 @@ package object
 //@ scan[C09.gotype.converter.writers] C09 fieldwriters GoType.converter: getConverter
 
 //@ func NewTypeConverter
-//@ props C09 C08
+//@ props C09 C08 C03
 //@ requires !ghost("lock.w", bool, goTypeMutex) && !ghost("lock.r", bool, goTypeMutex) && goTypeMutex != nil
 //@ ensures[C09.released] !ghost("lock.w", bool, goTypeMutex)
 //@ ghostensures err == nil ==> result0 != nil && ref(result0) != nil && uf("conv.for", bool, result0, typ)
 //@ ensures[C08.create.err] err != nil ==> result0 == nil
 
 //@ func SetTypeConverter
-//@ props C09
+//@ props C09 C03
 //@ requires !ghost("lock.w", bool, goTypeMutex) && !ghost("lock.r", bool, goTypeMutex) && goTypeMutex != nil
 //@ ensures[C09.released] !ghost("lock.w", bool, goTypeMutex)
 
 //@ func NewGoType
-//@ props C09
+//@ props C09 C03
 //@ requires !ghost("lock.w", bool, goTypeMutex) && !ghost("lock.r", bool, goTypeMutex) && goTypeMutex != nil
 //@ ensures[C09.released] !ghost("lock.w", bool, goTypeMutex)
 
@@ -183,7 +195,7 @@ package object
 
 // GetConverter takes the lock itself (KF-32 fixed); getConverter is the variant for callers that hold it.
 //@ func (*GoType).GetConverter
-//@ props C09
+//@ props C09 C03
 //@ assume[types.nonnil] t != nil && goTypeMutex != nil
 //@ requires[C09.unlocked] !ghost("lock.w", bool, goTypeMutex) && !ghost("lock.r", bool, goTypeMutex)
 //@ modcomps H_ E_ M G_object_typeConverters G_object_goTypeRegistry -MD_string_any -MV_string_any -MD_string_object_Object -MV_string_object_Object
